@@ -190,11 +190,15 @@ Definition read_token (msg : bytes) (acc : hs * nat) (t : token) : NM (hs * nat)
   end.
 
 (* The length guard at the top of read_message.
-   legacy = true: the code before fix F2 (`assert!(len >= 64 && len <= 65535)`);
-   legacy = false: the repaired code (an error value for len < 96 or len > 65535). *)
+   legacy = true: the code before fix F2 (`assert!(len >= 64 && len <= 65535)`), literals of the old code;
+   legacy = false: the repaired code, `if message.len() < MIN || message.len() > MAX { return Err(..) }`
+   with the two literals READ from the sources on every run (gen/Extracted.v: x_noise_guard_min = 96,
+   x_noise_guard_max = 65535 today; pinned by C09_noise_guard_constants). *)
+Definition guard_min : nat := N.to_nat x_noise_guard_min.
+Definition guard_max : N := x_noise_guard_max.
 Definition read_len_guard (legacy : bool) (len : nat) : NM unit :=
   if legacy then (if Nat.leb 64 len && (N.of_nat len <=? 65535) then Ok tt else Panic PAssert)
-  else (if Nat.leb 96 len && (N.of_nat len <=? 65535) then Ok tt else Err NOther).
+  else (if Nat.leb guard_min len && (N.of_nat len <=? guard_max) then Ok tt else Err NOther).
 
 (* read_message: returns (payload, handshake_hash, state) *)
 Definition read_message_gen (legacy : bool) (st : hs) (msg : bytes) : NM (bytes * bytes * hs) :=
